@@ -23,6 +23,12 @@ TEMPLATES = {
     "cross": dict(card=dict(A=2, B=3, O=2), intra=[("B", "O"), ("A", "O")], inter=[("A", "A"), ("A", "B"), ("B", "B")]),
     "obs2par": dict(card=dict(A=3, B=2, O=2), intra=[("B", "O"), ("A", "O")], inter=[("A", "A"), ("B", "B")]),
     "root3": dict(card=dict(Z=2, R=3, O=2), intra=[("R", "O"), ("Z", "O")], inter=[("Z", "Z")]),
+    # inter-slice edge between DIFFERENT variables only (A0 -> B1), B has no self transition
+    "xonly": dict(card=dict(A=2, B=2, O=2), intra=[("B", "O")], inter=[("A", "B"), ("A", "A")]),
+    # CPD of O declares its parents in the opposite order of edge insertion
+    "revpar": dict(card=dict(A=2, B=3, O=2), intra=[("B", "O"), ("A", "O")], inter=[("A", "A"), ("B", "B")], rev_cpd_parents=True),
+    # string state names, evidence given by name
+    "named": dict(card=dict(Z=2, Y=3), intra=[("Z", "Y")], inter=[("Z", "Z")], state_names=True),
 }
 
 
@@ -37,13 +43,16 @@ def scenarios(tier, seed):
                 if tier == "quick" and T == 3 and tname not in ("hmm", "hmm3"):
                     continue
                 qsets = [[(v, T)] for v in names] + [[(names[0], 0), (names[-1], T)]]
+                if T >= 2:
+                    qsets.append([(names[0], 1), (names[0], T)])
+                    qsets.append([(names[-1], 1), (names[0], T - 1), (names[-1], T)])
                 evs = [{}, {(names[-1], 0): 0}, {(names[-1], T): 1, (names[-1], 0): 0}, {(names[0], 1): 1}, {(names[0], min(T, 1)): 0, (names[-1], T): 1}]
                 for q in qsets:
                     for ev in evs:
                         k += 1
                         if any(x in ev for x in q):
                             continue
-                        if tier == "quick" and k % 4:
+                        if tier == "quick" and k % 6:
                             continue
                         ev2 = {key: s % t["card"][key[0]] for key, s in ev.items()}
                         nsym = 1 + (k % 2)
@@ -74,6 +83,8 @@ def cpd_list(t):
 def parents_of(t, v, which):
     """declared parent list [(name, slice)] of node v: which='init' -> slice-0 CPD, 'trans' -> slice-1 CPD with inter parents"""
     intra = [p for p, c in t["intra"] if c == v]
+    if t.get("rev_cpd_parents"):
+        intra = intra[::-1]
     if which == "init":
         return [(p, 0) for p in intra]
     inter = [p for p, c in t["inter"] if c == v]
@@ -132,7 +143,10 @@ def build_dbn(desc, M, tabs, use_init_state=True):
     for cid, (pa, rows) in tabs.items():
         which, v = cid.split(":")
         node = (v, 0 if which == "init" else 1)
-        cpds.append(TabularCPD(node, t["card"][v], M.impl_table(rows), evidence=pa or None, evidence_card=[t["card"][p[0]] for p in pa] or None))
+        kw = {}
+        if t.get("state_names"):
+            kw["state_names"] = {x: [f"{x[0].lower()}{i}" for i in range(t["card"][x[0]])] for x in [node] + list(pa)}
+        cpds.append(TabularCPD(node, t["card"][v], M.impl_table(rows), evidence=pa or None, evidence_card=[t["card"][p[0]] for p in pa] or None, **kw))
     if not use_init_state:
         # also give the slice-1 copies of purely intra CPDs explicitly
         for v in t["card"]:
@@ -177,22 +191,46 @@ def run(desc, M):
     tabs = make_cpds(desc, M)
     if desc["mode"] == "structure":
         return run_structure(desc, M, tabs)
-    dbn = build_dbn(desc, M, tabs, use_init_state=(desc["fixed_seed"] % 3 != 0))
-    inf = DBNInference(dbn)
+    # recorded known findings tied to specific template features (recognised by the feature, see known_findings.txt)
+    tkey = None
+    if desc["template"] == "xonly":
+        tkey = "dbn:known-variable-without-intra-slice-edges"
+    elif desc["template"] == "revpar":
+        tkey = "dbn:known-initial-state-copy-uses-graph-parent-order"
+    elif desc["template"] == "named":
+        tkey = "dbn:known-state-names-dropped-by-initial-state-copy"
+    try:
+        dbn = build_dbn(desc, M, tabs, use_init_state=(desc["fixed_seed"] % 3 != 0) or tkey is not None)
+        inf = DBNInference(dbn)
+        if tkey is not None:
+            ev0 = {tuple(k): s for k, s in desc["ev"]}
+            if t.get("state_names"):
+                ev0 = {k: f"{k[0].lower()}{s}" for k, s in ev0.items()}
+            inf.forward_inference([tuple(x) for x in desc["q"]], ev0 or None)
+    except (ValueError, KeyError, IndexError) as e:
+        if tkey is None:
+            raise
+        M.fail("dynamic network with this template feature can be built and queried", f"{type(e).__name__}: {e}", key=tkey)
+        return
     q = [tuple(x) for x in desc["q"]]
     ev = {tuple(k): s for k, s in desc["ev"]}
+    if t.get("state_names"):
+        ev_call = {k: f"{k[0].lower()}{s}" for k, s in ev.items()}
+    else:
+        ev_call = dict(ev)
     T = max([desc["T"]] + [k[1] for k in ev] + [x[1] for x in q])
+    nm_ev = (lambda e: {k: f"{k[0].lower()}{s}" for k, s in e.items()}) if t.get("state_names") else (lambda e: dict(e))
     if desc["mode"] == "sequence":
-        inf.forward_inference(q, ev or None)  # first question, answer discarded
+        inf.forward_inference(q, ev_call or None)  # first question, answer discarded
         ev = {tuple(k): s for k, s in desc["ev2"]}
-        res = inf.forward_inference(q, ev)
+        res = inf.forward_inference(q, nm_ev(ev))
         desc = dict(desc, mode="forward")
     elif desc["mode"] == "forward":
-        res = inf.forward_inference(q, ev or None)
+        res = inf.forward_inference(q, ev_call or None)
     elif desc["mode"] == "backward":
-        res = inf.backward_inference(q, ev or None)
+        res = inf.backward_inference(q, ev_call or None)
     else:
-        res = inf.query(q, ev or None)
+        res = inf.query(q, ev_call or None)
     nodes, J = unrolled_joint(desc, tabs, T)
     if desc["mode"] == "forward":
         # filtering semantics: the marginal at time s uses the evidence up to time s only
@@ -216,7 +254,14 @@ def run(desc, M):
         # recorded known finding, recognised structurally: backward (smoothing) pass is wrong for slice-0 variables and for
         # evidence on an interface node in a slice >= 1 (forward inference is unaffected and fully checked)
         known = None
-        if desc["mode"] in ("backward", "query"):
+        slices = sorted({x[1] for x in q})
+        multi = len([s for s in slices if s >= 1]) >= 2
+        if any(s1 >= 1 and s1 < qv[1] for s1 in slices) or (multi and desc["mode"] in ("backward", "query") and qv[1] >= 1):
+            # a query at an intermediate slice resets the junction tree that carries the interface message forward
+            known = "dbn:known-intermediate-slice-query-corrupts-later-slices"
+        elif tkey is not None:
+            known = tkey
+        elif desc["mode"] in ("backward", "query"):
             iface = {p for p, c in t["inter"]}
             if qv[1] == 0:
                 known = "dbn/backward:known-slice0-marginals"
@@ -232,6 +277,17 @@ def run(desc, M):
 
 def run_structure(desc, M, tabs):
     t = TEMPLATES[desc["template"]]
+    tkey = {"xonly": "dbn:known-variable-without-intra-slice-edges", "revpar": "dbn:known-initial-state-copy-uses-graph-parent-order",
+            "named": "dbn:known-state-names-dropped-by-initial-state-copy"}.get(desc["template"])
+    try:
+        return _run_structure(desc, M, tabs, t, tkey)
+    except (ValueError, KeyError, IndexError) as e:
+        if tkey is None:
+            raise
+        M.fail("dynamic network with this template feature can be completed and exported", f"{type(e).__name__}: {e}", key=tkey)
+
+
+def _run_structure(desc, M, tabs, t, tkey):
     dbn = build_dbn(desc, M, tabs, use_init_state=True)
     # initialize_initial_state must have produced slice-1 copies of purely intra CPDs, entry-wise identical by (named) assignment
     for v in t["card"]:
@@ -254,7 +310,7 @@ def run_structure(desc, M, tabs):
                 for p in pa_s:
                     col = col * t["card"][p[0]] + a[p]
                 idx = tuple(a[tuple(x)] for x in phi.variables)
-                M.eq(phi.values[idx], rows[a[(v, sl)]][col], "initial-state completion copies CPDs without altering them", detail=f"{(v, sl)} {a}")
+                M.eq(phi.values[idx], rows[a[(v, sl)]][col], "initial-state completion copies CPDs without altering them", key=tkey, detail=f"{(v, sl)} {a}")
     for ts in (0, 1):
         bn = dbn.get_constant_bn(t_slice=ts)
         M.check(bn.check_model() is True, "constant two-slice network validates")
@@ -282,4 +338,4 @@ def run_structure(desc, M, tabs):
                 for p in pa_s:
                     col = col * t["card"][p[0]] + a[p]
                 idx = tuple(a[(str(x).rsplit("_", 1)[0], int(str(x).rsplit("_", 1)[1]) - ts)] for x in phi.variables)
-                M.eq(phi.values[idx], rows[a[(v, sl)]][col], "constant two-slice network exposes the template's CPDs unchanged", detail=f"{name} {a}")
+                M.eq(phi.values[idx], rows[a[(v, sl)]][col], "constant two-slice network exposes the template's CPDs unchanged", key=tkey, detail=f"{name} {a}")
